@@ -9,6 +9,7 @@ latency drawn from the case's profile.  Latency zero is delivered *re-entrantly 
 the sender's send call* (the sequential image of "the notifier thread handled the reply
 before bus.send returned").
 """
+import threading
 import collections
 import can
 
@@ -114,9 +115,10 @@ class Bus:
                 continue
             # (while a receive handler is suspended in favour of a woken thread nothing is delivered re-entrantly: the receiver's own receive
             #  thread may be the suspended one, and a stack has only one)
-            if self.zero_prob and not sim.eager_depth and not n.pending and n.last_delivery <= sim.now and self.rng.random() < self.zero_prob:
+            if self.zero_prob and not sim.eager_depth and not n.pending and n.last_delivery <= sim.now and self.rng.random() < self.zero_prob \
+                    and (not hasattr(n, 'can_reenter') or n.can_reenter()):
                 n.last_delivery = sim.now
-                self.deliver(n, fr)
+                self.deliver(n, fr, reentrant=True)
             else:
                 lat = self.rng.uniform(*self.latency)
                 t = max(sim.now + lat, n.last_delivery + 1e-7)
@@ -129,10 +131,20 @@ class Bus:
         node.pending -= 1
         self.deliver(node, fr)
 
-    def deliver(self, node, fr):
+    def deliver(self, node, fr, reentrant=False):
         self.delivered.append((self.sim.now, node.name, fr.idx))
         try:
-            node.on_frame(fr)
+            if reentrant:
+                self.sim.reentrant_depth += 1
+                try:
+                    if isinstance(node, StackNode):
+                        node.on_frame(fr, reentrant=True)
+                    else:
+                        node.on_frame(fr)
+                finally:
+                    self.sim.reentrant_depth -= 1
+            else:
+                node.on_frame(fr)
         except (engine.SimThreadKilled, engine.Runaway):
             raise
         except Exception as e:          # a listener must never let one out; recorded, judged by the checks
@@ -151,11 +163,17 @@ def order_fingerprint(frames, limit=4000):
 class StackNode:
     """a real ElectronicControlUnit on the simulated bus"""
 
-    def __init__(self, bus, name, j1939, dll='j1939-21', **kw):
+    def __init__(self, bus, name, j1939, dll='j1939-21', rx_thread=False, rx_trace=None, **kw):
         self.name = name
         self.last_delivery = 0.0
         self.pending = 0            # deliveries scheduled but not yet made (a later frame must not overtake them)
         self.j1939 = j1939
+        # rx_thread: received frames are handled by a controlled thread of their own (the image of python-can's Notifier thread) instead of
+        # by the driver, so that the handler itself can be suspended at a source line (rx_trace) while the job thread runs
+        self.rxq = None
+        self.rx_state = None
+        self.rx_busy = False
+        self.reentrant_depth = 0
         self.notify_exc = collections.Counter()    # exceptions raised by ecu.notify (contained by the listener)
         self.notify_exc_samples = []
         before = set(bus.sim.states)
@@ -170,6 +188,15 @@ class StackNode:
             self.listener = importlib.import_module('j1939.electronic_control_unit').MessageListener(self.ecu)
         self.rx_frames = 0
         bus.add(self)
+        if rx_thread:
+            self.rxq = engine.VQueue()
+            keep = bus.sim.trace_hook
+            bus.sim.trace_hook = rx_trace
+            try:
+                th = bus.sim.spawn(self._rx_loop, name='rx:' + name)
+            finally:
+                bus.sim.trace_hook = keep
+            self.rx_state = th.st
         # the job thread = the controlled thread that came into being while the ECU was constructed (private name used only as a hint)
         jt = getattr(self.ecu, '_job_thread', None)
         self.job_state = getattr(jt, 'st', None)
@@ -199,7 +226,39 @@ class StackNode:
                           is_fd=fd_format, bitrate_switch=fd_format)
         self.bus.transmit(self, msg.arbitration_id, bytes(msg.data), fd=fd_format, ext=bool(extended_id))
 
-    def on_frame(self, fr):
+    def can_reenter(self):
+        """may a frame be handled re-entrantly (inside the sender's send call) right now?  Only if this stack's receive thread is not in the
+        middle of a handler -- unless the caller IS that thread (the reply to a frame it is just sending)"""
+        if self.rxq is None:
+            return True
+        if threading.current_thread() is self.rx_state.thread:
+            return True
+        return not self.rx_busy and not self.rxq.items and not self.reentrant_depth
+
+    def _rx_loop(self):
+        while True:
+            fr = self.rxq.get()
+            self.rx_busy = True
+            try:
+                self.handle(fr)
+            except (engine.SimThreadKilled, engine.Runaway, engine.SpinDetected):
+                raise
+            except Exception as e:
+                self.bus.rx_exc.append((self.bus.sim.now, self.name, repr(e)))
+            finally:
+                self.rx_busy = False
+
+    def on_frame(self, fr, reentrant=False):
+        if self.rxq is not None and not reentrant:
+            self.rxq.put(fr)
+            return
+        self.reentrant_depth += 1
+        try:
+            self.handle(fr)
+        finally:
+            self.reentrant_depth -= 1
+
+    def handle(self, fr):
         self.rx_frames += 1
         m = can.Message(is_extended_id=fr.ext, arbitration_id=fr.can_id, data=bytearray(fr.data),
                         is_fd=fr.fd, is_remote_frame=fr.remote, is_error_frame=fr.error,
